@@ -289,6 +289,46 @@ def _month_tabulate(ctx, region: set, who: str, site: str) -> None:
               "every one leads back to the end point with 0..30 days"), site)
 
 
+def _month_agree_tabulate(ctx, py_region: set, rs_region: set) -> bool | None:
+    """'the compiled and pure-Python helpers report identical components', month/day part: both branch summaries are
+    evaluated on every input tuple of the month-borrow branch; they must report the same month change and days"""
+    dpm = core.const("constants", "DAYS_PER_MONTHS")
+    from types import SimpleNamespace as NS
+    greg = lambda y: int(y % 4 == 0 and (y % 100 != 0 or y % 400 == 0))      # noqa: E731
+    try:
+        comp = []
+        for region in (py_region, rs_region):
+            comp.append([([(_mb_compile(c), pol) for c, pol in conds], _mb_compile(d), _mb_compile(mo)) for conds, d, mo in region])
+        n = diff = 0
+        first = None
+        for year in (2023, 2024, 2025):
+            for month in range(1, 13):
+                dim = dpm[greg(year)][month]
+                for b in range(1, dim + 1):
+                    for a in range(1, 32):
+                        for beta in (0, 1):
+                            day = b - a - beta
+                            if day >= 0:
+                                continue
+                            env = {"A": NS(day=a), "B": NS(day=b, month=month, year=year), "DAY": day, "MONTH": 0, "DAYS_PER_MONTHS": dpm, "is_leap": greg}
+                            res = []
+                            for paths in comp:
+                                live = [p for p in paths if all(bool(c(env)) == pol for c, pol in p[0])]
+                                if len(live) != 1:
+                                    return None
+                                res.append((live[0][1](env), live[0][2](env)))
+                            n += 1
+                            if res[0] != res[1]:
+                                diff += 1
+                                first = first or f"start day {a}, end {year}-{month:02d}-{b:02d}, borrow {beta}: Python (days, months) {res[0]} vs Rust {res[1]}"
+    except (core.Unsupported, KeyError, IndexError, SyntaxError, AttributeError, NameError, TypeError):
+        return None
+    ctx.ob("MONTHBRANCH.agree", "py-vs-rs:precise_diff/day<0", diff == 0,
+           f"both month-borrow branches evaluated on {n} input tuples: " + (f"{diff} differ, e.g. {first}" if diff else "identical days and month change everywhere"),
+           "rust/src/python/helpers.rs")
+    return diff == 0
+
+
 def _rs_outputs(ctx, f: mirfront.MirFn) -> None:
     names = f.names()
     sign = f.local("sign")
@@ -818,7 +858,10 @@ def run(ctx) -> None:
                 only_py, only_rs = py_region - rs_region, rs_region - py_region
                 ctx.count("month_branch_paths_py", len(py_region))
                 ctx.count("month_branch_paths_rs", len(rs_region))
-                ctx.ob("MONTHBRANCH.agree", "py-vs-rs:precise_diff/day<0", not only_py and not only_rs,
+                if (only_py or only_rs) and _month_agree_tabulate(ctx, py_region, rs_region) is not None:
+                    pass            # differently written branches: decided on the values they compute
+                else:
+                  ctx.ob("MONTHBRANCH.agree", "py-vs-rs:precise_diff/day<0", not only_py and not only_rs,
                        f"path summaries only in Python: {sorted(map(str, only_py))[:2]}; only in Rust: "
                        f"{sorted(map(str, only_rs))[:2]}; both back ends must take the same decisions with the same updates",
                        "rust/src/python/helpers.rs")
